@@ -12,6 +12,7 @@ Validity of the emitted token stream itself is checked by the Lean reference dec
 import MinizProof.Gen.All
 import MinizProof.Spec.Inflate
 import MinizProof.Lemmas.Finite
+import MinizProof.Props.C02
 set_option maxRecDepth 1000000
 open Fin'
 
@@ -138,5 +139,17 @@ theorem mode_flags : ∀ level strategy zlib, level < 11 → strategy < 5 → zl
 
 example : lenCode 255 = (285, 0, 0) := by decide +kernel
 example : distCode 32767 = (29, 13, 8191) := by decide +kernel
+
+/-- The emitted bits are the codes: `compress_lz_codes` never pushes more bits into its 64-bit
+    accumulator than it holds (otherwise high bits of a code are silently dropped in release builds
+    and the stream is invalid or decodes to other bytes). Same statement as `C02.lz_bitbuffer_never_overflows`,
+    over the same regenerated constants (literal batch size, code-size limits, extra-bit tables);
+    restated here because validity of the output for independent decoders is this property. -/
+theorem emitted_codes_fit_the_bit_buffer :
+    let codeMax := max (C02.maxOf Gen.DeflCore.DYN_CODE_SIZE_LIMITS) (C02.maxOf Gen.DeflCore.STATIC_CODE_SIZE_LIMITS)
+    7 + max (Gen.DeflCore.LZ_LITERAL_BATCH * codeMax)
+            (codeMax + C02.maxOf Gen.DeflCore.LEN_EXTRA + codeMax +
+              max (C02.maxOf Gen.DeflCore.SMALL_DIST_EXTRA) (C02.maxOf Gen.DeflCore.LARGE_DIST_EXTRA)) ≤ 64 ∧
+    codeMax ≤ 15 ∧ G.idx Gen.DeflCore.DYN_CODE_SIZE_LIMITS 2 ≤ 7 := C02.lz_bitbuffer_never_overflows
 
 end C10
